@@ -24,6 +24,7 @@ type Sym struct {
 	Sha  *string `json:"sha,omitempty"`  // base64std(sha512(x)), x in hex
 	Pw   *string `json:"pw,omitempty"`   // password hash of plaintext p (hex)
 	Join []Sym   `json:"join,omitempty"` // comma-joined
+	Cat  []Sym   `json:"cat,omitempty"`  // concatenated
 	Nil  bool    `json:"nil,omitempty"`  // empty string
 }
 
@@ -84,7 +85,7 @@ type Obs struct {
 	Err    bool              `json:"err"`
 	Taints []Taint           `json:"taints"`
 	NLog   int               `json:"nlog"`
-	Logs   []string          `json:"logs"` // hex of each new log line
+	Logs   []Sym             `json:"logs"` // each new log line; digests the harness can name are named
 }
 
 type DVal struct {
@@ -162,6 +163,43 @@ func (k *Know) learn(chunks [][]byte, pids []string) {
 				k.secret(code, "recovery")
 			}
 		}
+	}
+}
+
+// symLine names every base64(sha512(x)) with known x inside a log line; the rest stays literal
+func (k *Know) symLine(l string) Sym {
+	var parts []Sym
+	rest := l
+	for len(rest) > 0 {
+		best, bestAt := "", -1
+		for d := range k.sha {
+			if i := strings.Index(rest, d); i >= 0 && (bestAt < 0 || i < bestAt) {
+				best, bestAt = d, i
+			}
+		}
+		if bestAt < 0 {
+			break
+		}
+		if bestAt > 0 {
+			parts = append(parts, symRaw(rest[:bestAt]))
+		}
+		parts = append(parts, k.symSha(best))
+		rest = rest[bestAt+len(best):]
+	}
+	if len(parts) == 0 {
+		return symRaw(l)
+	}
+	if rest != "" {
+		parts = append(parts, symRaw(rest))
+	}
+	return Sym{Cat: parts}
+}
+
+// submitted learns the digests the library will compute from a submitted confirm / recover token
+func (k *Know) submitted(v string) {
+	if raw, err := base64.URLEncoding.DecodeString(v); err == nil && len(raw) == 64 {
+		k.preimage(string(raw[:32]))
+		k.preimage(string(raw[32:]))
 	}
 }
 
@@ -376,7 +414,7 @@ func (w *World) observe(k *Know, browser string, r respObs, mails0, sms0, log0 i
 	o.NLog = len(w.log.lines) - log0
 	w.log.mu.Lock()
 	for _, l := range w.log.lines[log0:] {
-		o.Logs = append(o.Logs, hx(l))
+		o.Logs = append(o.Logs, k.symLine(l))
 	}
 	w.log.mu.Unlock()
 	return o
